@@ -84,6 +84,10 @@ def handle : List String → String
   -- matchers.ToFactory) of the one compiled pattern, match the same lines concurrently; by
   -- `instances_independent` every one of them answers what a single instance answers
   | ["par", ic, pat, lines, rep, _k] => dissectOp ic pat lines rep
+  -- `hist <ic> <pattern> <lines>`: a history matched by ONE instance; the Go side also runs every
+  -- line on a fresh instance and through a re-used buffer and demands the same answers
+  -- (`history_independent`: the answer for a line is a function of pattern and line alone)
+  | ["hist", ic, pat, lines] => dissectOp ic pat lines "1"
   -- the SPECIFICATION evaluated on a structured pattern (the Go side renders and compiles it)
   | ["specp", ic, pre, keys, lits, lines, rep] =>
     match Hex.dec pre, decHexList keys, decHexList lits, decHexList lines, rep.toNat? with
